@@ -35,6 +35,8 @@ func checkC15(p *Prog, r *Report) {
 	inputHelpers(p, r, "C15.R5")
 	// an absent optional column must not be read from column 0 (the soil id becomes field capacity = wilting point = pore volume; shared with C13.optional-columns)
 	c13OptionalColumnsAs(p, r, "C15.R6")
+	// both soil layouts hand the same cells to the same parameters (a cell identified by rank instead of column shifts sand into field capacity; shared with C13.soil)
+	siblingPairs(p, r, "C15.R7:", []sibPair{soilSiblingPair()})
 }
 
 // ---------------------------------------------------------------- units
